@@ -32,7 +32,7 @@ sensitivity)
     fail=0
     for d in seeded/*/; do
         id=$(basename "$d"); [ -f "$d/patch.diff" ] || continue
-        checks=$(sed -n 's/.*"caught_by": *\[\([^]]*\)\].*/\1/p' "$d/meta.json" | tr -d '", ' | sed 's/C/ C/g')
+        checks=$(python3 -c "import json,sys; print(' '.join(json.load(open(sys.argv[1]))['caught_by']))" "$d/meta.json")
         [ -z "$checks" ] && { echo "$id: not expected to be caught (see meta.json)"; continue; }
         (cd "$REPO" && git diff --quiet) || { echo "repo dirty"; exit 2; }
         (cd "$REPO" && git apply "$VERIF_DIR/$d/patch.diff") || { echo "$id: patch does not apply"; fail=1; continue; }
